@@ -16,7 +16,7 @@ RULE = ("integers: exhaustive ranges + +-64 around every 2**(7k), 2**31, 2**32, 
         "with an independent spec-level codec (itself cross-checked against google.protobuf.internal at start-up); "
         "decoder inputs: all byte strings of length <= 2 and, for lengths 3..11, every continuation-bit pattern x "
         "payload classes; scalars: per-kind boundary tables + random through generated single-field messages, "
-        "compared byte-for-byte with google.protobuf. distinct = distinct integers / byte strings / (kind,value) pairs.")
+        "compared byte-for-byte with google.protobuf. Also: +-0.0 given raw and in alternation, Python ints in float fields, NaN bit patterns from the wire, len agreement per scalar case, dump_varint into a sink that keeps the objects it is given, load_varint through BufferedReaders with tiny buffers, decode_varint at positions inside a buffer, one signal for premature end of input, a sweep of integers below -2**63 over every low-64-bit pattern. distinct = distinct integers / byte strings / (kind,value) pairs.")
 ASSUMPTIONS = [
     "google.protobuf 7.x (upb) and its internal pure-python varint helpers are the reference encoders",
     "10-byte varints whose last byte carries bits beyond 2**64 are recorded, not judged (the property does not state them)",
